@@ -27,7 +27,7 @@ CONSTANTS
   AlClasses <- ALAll
   MaxDepth = 1
   MaxFrameOps = 1
-  MaxTx = 2
+  MaxTx = 1
   UsedMode = "all"
   GrindFail = TRUE
 VIEW view
